@@ -85,14 +85,15 @@ Proof.
     + destruct (Z.eqb_spec (Z.of_nat (length d)) 37); [lia|]. reflexivity.
 Qed.
 
-Definition gString := Kernels3.WIF_String N N Base58.encode sha256d (fun d => d) big_bytes.
+(* (phase 5) the model's private key is a number: never a nil pointer (PrivateKey_isnil := fun _ => false) *)
+Definition gString := Kernels3.WIF_String N N Base58.encode sha256d (fun d => d) (fun _ => false) big_bytes.
 
 Theorem WIF_String_tie (w : wif) : gString (to_gen w) = Ok (wif_string w).
 Proof.
   unfold gString, Kernels3.WIF_String, wif_string, wif_payload, to_gen. cbn [Kernels3.bchutil_WIF_CompressPubKey
     Kernels3.bchutil_WIF_netID Kernels3.bchutil_WIF_PrivKey].
   assert (Hcap : forall c : bool, Go3.check_cap (if c then (37 + 1)%Z else 37%Z) = Ok tt) by (intros []; reflexivity).
-  rewrite Hcap. cbn [rbind app].
+  rewrite Hcap. cbn [rbind app]. cbv beta. cbn [Go3.nonnil rbind].
   rewrite wif_paddedAppend_tie by (vm_compute; reflexivity).
   change (N.to_nat 32) with priv_len.
   rewrite tie_str_ck_take, tie_magic.
@@ -112,9 +113,20 @@ Theorem WIF_IsForNet_nil (w : wif) : Kernels3.WIF_IsForNet N (to_gen w) None = P
 Proof. reflexivity. Qed.
 
 Theorem WIF_SerializePubKey_tie (w : wif) :
-  Kernels3.WIF_SerializePubKey N (N * N) base_mult ser_compressed ser_uncompressed (to_gen w)
-  = serialize_pubkey base_mult w.
-Proof. reflexivity. Qed.
+  Kernels3.WIF_SerializePubKey N (N * N) (fun _ => false) base_mult ser_compressed ser_uncompressed (to_gen w)
+  = Ok (serialize_pubkey base_mult w).
+Proof. unfold Kernels3.WIF_SerializePubKey, serialize_pubkey. destruct w as [d c n]; destruct c; reflexivity. Qed.
+
+(* (phase 5) a nil *bchec.PrivateKey panics in String and SerializePubKey, whatever the dependencies are *)
+Theorem WIF_nil_key_panics (PK I PUB : Type) enc dh (fd : PK -> I) (ib : I -> list N) (isnil : PK -> bool) pp sc su (w : Kernels3.bchutil_WIF PK) :
+  isnil (Kernels3.bchutil_WIF_PrivKey PK w) = true ->
+  Kernels3.WIF_String PK I enc dh fd isnil ib w = Panic 5 /\
+  Kernels3.WIF_SerializePubKey PK PUB isnil pp sc su w = Panic 5.
+Proof.
+  intro Hn. unfold Kernels3.WIF_String, Kernels3.WIF_SerializePubKey. rewrite Hn. split.
+  - destruct (Kernels3.bchutil_WIF_CompressPubKey PK w); reflexivity.
+  - reflexivity.
+Qed.
 
 End WifTie.
 
